@@ -218,18 +218,33 @@ Section Reader.
   Variable A : Type.
   Variable file : list A.
   Variable flen : N.   (* length of the file on disk as the reads see it *)
+  Variable mode : read_mode.
+
+  Lemma callback_snd pend k offset max_bytes :
+    snd (callback flen mode pend k offset max_bytes) = callback_sync flen k offset max_bytes.
+  Proof. destruct mode; reflexivity. Qed.
+
+  Lemma body_of_waits w evs : body_of file (waits w ++ evs) = body_of file evs.
+  Proof. destruct w; reflexivity. Qed.
+  Lemma finished_waits w evs : finished (waits w ++ evs) = finished evs.
+  Proof. destruct w; reflexivity. Qed.
+
+  Definition chunk_ok (e : ev) : Prop := match e with EChunk _ n => 0 < n /\ n <= chunk | _ => True end.
+
+  Lemma Forall_waits w evs : Forall chunk_ok evs -> Forall chunk_ok (waits w ++ evs).
+  Proof. destruct w; cbn [waits app]; [tauto|]. intro H. constructor; [exact I|assumption]. Qed.
 
   (* every completed stream delivered exactly file[offset .. offset + (size - counter)),
-     which therefore exists on disk; no chunk is empty or larger than [chunk] *)
+     which therefore exists on disk; no chunk is empty or larger than [chunk]; in both read modes *)
   Lemma read_loop_exact : forall sched size offset counter evs,
     counter <= size ->
-    read_loop chunk flen sched size offset counter = Val evs ->
-    Forall (fun e => match e with EChunk _ n => 0 < n /\ n <= chunk | _ => True end) evs /\
+    read_loop chunk flen mode sched size offset counter = Val evs ->
+    Forall chunk_ok evs /\
     (finished evs = true ->
      body_of file evs = slice file offset (size - counter) /\
      (counter < size -> offset + (size - counter) <= flen)).
   Proof.
-    induction sched as [|k sched IH]; intros size offset counter evs Hc H; cbn [read_loop] in H.
+    induction sched as [|[pend k] sched IH]; intros size offset counter evs Hc H; cbn [read_loop] in H.
     - destruct (size =? counter) eqn:E.
       + apply N.eqb_eq in E. inversion H; subst. split; [constructor|]. intros _.
         rewrite N.sub_diag. split; [reflexivity|lia].
@@ -237,20 +252,22 @@ Section Reader.
     - destruct (size =? counter) eqn:E.
       + apply N.eqb_eq in E. inversion H; subst. split; [constructor|]. intros _.
         rewrite N.sub_diag. split; [reflexivity|lia].
-      + apply N.eqb_neq in E.
+      + apply N.eqb_neq in E. rewrite callback_snd in H. unfold callback_sync in H.
+        set (w := fst (callback flen mode pend k offset (N.min (size - counter) chunk))) in *.
         set (n := N.min (N.min k (N.min (size - counter) chunk)) (flen - offset)) in *.
         destruct (n =? 0) eqn:En.
-        * inversion H; subst. split; [repeat constructor|]. cbn [finished]. discriminate.
+        * inversion H; subst. split; [apply Forall_waits; repeat constructor|].
+          rewrite finished_waits. cbn [finished]. discriminate.
         * apply N.eqb_neq in En. unfold uadd in H.
           destruct (offset + n <=? u64_max); [|discriminate]. cbn [rbind] in H.
           destruct (counter + n <=? u64_max); [|discriminate]. cbn [rbind] in H.
-          destruct (read_loop chunk flen sched size (offset + n) (counter + n)) as [evs'|] eqn:ER; [|discriminate].
+          destruct (read_loop chunk flen mode sched size (offset + n) (counter + n)) as [evs'|] eqn:ER; [|discriminate].
           cbn [rbind] in H. inversion H; subst evs.
           assert (Hn : n <= size - counter /\ n <= chunk /\ n <= flen - offset)
             by (pose proof (min3_bounds k (size - counter) chunk (flen - offset)) as Hm; cbv zeta in Hm; fold n in Hm; tauto).
           destruct (IH size (offset + n) (counter + n) evs' ltac:(lia) ER) as (HF & HB).
-          split; [constructor; [lia|assumption]|].
-          cbn [finished body_of]. intro Hfin. destruct (HB Hfin) as (HB1 & HB2).
+          split; [apply Forall_waits; constructor; [cbn; lia|assumption]|].
+          rewrite finished_waits, body_of_waits. cbn [finished body_of]. intro Hfin. destruct (HB Hfin) as (HB1 & HB2).
           rewrite HB1. rewrite slice_app. split; [f_equal; lia|lia].
   Qed.
 
@@ -258,14 +275,16 @@ Section Reader.
      a long enough schedule completes the stream without error or panic *)
   Lemma read_loop_completes : forall sched size offset counter,
     0 < chunk -> counter <= size -> offset + (size - counter) <= flen -> flen <= u64_max -> size <= u64_max ->
-    Forall (fun k => 1 <= k) sched -> size - counter <= N.of_nat (length sched) ->
-    exists evs, read_loop chunk flen sched size offset counter = Val evs /\ finished evs = true.
+    Forall (fun pk => 1 <= snd pk) sched -> size - counter <= N.of_nat (length sched) ->
+    exists evs, read_loop chunk flen mode sched size offset counter = Val evs /\ finished evs = true.
   Proof.
-    induction sched as [|k sched IH]; intros size offset counter Hch Hc Hw Hf Hsz HF Hl; cbn [read_loop].
+    induction sched as [|[pend k] sched IH]; intros size offset counter Hch Hc Hw Hf Hsz HF Hl; cbn [read_loop].
     - cbn [length] in Hl. destruct (size =? counter) eqn:E; [exists []; split; reflexivity|].
       apply N.eqb_neq in E. lia.
     - destruct (size =? counter) eqn:E; [exists []; split; reflexivity|]. apply N.eqb_neq in E.
-      inversion HF as [|? ? Hk HF']; subst.
+      inversion HF as [|? ? Hk HF']; subst. cbn [snd] in Hk.
+      rewrite callback_snd. unfold callback_sync.
+      set (w := fst (callback flen mode pend k offset (N.min (size - counter) chunk))).
       set (n := N.min (N.min k (N.min (size - counter) chunk)) (flen - offset)).
       assert (Hn : 1 <= n /\ n <= size - counter /\ n <= flen - offset).
       { pose proof (min3_bounds k (size - counter) chunk (flen - offset)) as Hm. cbv zeta in Hm. fold n in Hm.
@@ -275,6 +294,23 @@ Section Reader.
       cbn [rbind]. destruct (counter + n <=? u64_max) eqn:E2; [|apply N.leb_gt in E2; lia].
       cbn [rbind]. cbn [length] in Hl.
       destruct (IH size (offset + n) (counter + n) Hch ltac:(lia) ltac:(lia) Hf Hsz HF' ltac:(lia)) as (evs & -> & Hfin).
-      cbn [rbind]. eexists. split; [reflexivity|]. cbn [finished]. assumption.
+      cbn [rbind]. eexists. split; [reflexivity|]. rewrite finished_waits. cbn [finished]. assumption.
+  Qed.
+
+  (* a Sync stream never yields Pending *)
+  Lemma sync_never_waits : mode = Sync -> forall sched size offset counter evs,
+    read_loop chunk flen mode sched size offset counter = Val evs ->
+    Forall (fun e => match e with EWait _ => False | _ => True end) evs.
+  Proof.
+    intros ->. induction sched as [|[pend k] sched IH]; intros size offset counter evs H; cbn [read_loop] in H.
+    - destruct (size =? counter); inversion H; subst; repeat constructor.
+    - destruct (size =? counter); [inversion H; subst; constructor|].
+      cbn [callback fst snd waits app] in H.
+      destruct (callback_sync flen k offset (N.min (size - counter) chunk) =? 0); [inversion H; subst; repeat constructor|].
+      unfold uadd in H.
+      destruct (_ <=? u64_max); [|discriminate]. cbn [rbind] in H.
+      destruct (_ <=? u64_max); [|discriminate]. cbn [rbind] in H.
+      destruct (read_loop chunk flen Sync sched size _ _) as [evs'|] eqn:ER; [|discriminate].
+      cbn [rbind] in H. inversion H; subst. constructor; [exact I|]. eapply IH. exact ER.
   Qed.
 End Reader.
